@@ -9,6 +9,15 @@ Callers run anywhere; their observable steps are
   * `submit`      – `send_request` allocates a request id and its task enters the submit channel,
   * `submitFull`  – the same, but the (bounded) submit channel is full: the caller is parked in `send().await`,
     `enqueue r`   – … and gets its slot later,
+  * `submitRace`  – `send_request` allocates a request id and `submit_channel.send()` has obtained channel capacity
+    (a permit) but has not pushed the task yet: the window in which the router may shut down concurrently
+    (multi-threaded runtime),
+    `push r`      – … the task is pushed. If the router has ended meanwhile, its drain loop (`receiver.close()`,
+    then `recv()` until every outstanding permit is used up, `router` 1604-1615) fails the task with the
+    connection's error. (Before /repo commit 8b0b75c the receiver was merely dropped: such a task stayed in the
+    dead channel and its caller waited forever — see `Props/C10.lean`, `pushOld` and the example after it.)
+    (`cancel` lets a held permit go; in the code there is no await point between obtaining capacity and the push,
+    so this is an over-approximation.)
   * `cancel r`    – the `send_request` future is dropped (`OrphanhoodNotifier::drop` sends a notice),
   * `recv r`      – the caller polls its oneshot and returns (the notifier is disabled).
 The server is abstract: it holds the `(stream, request)` pairs whose frames were written to the socket and
@@ -59,6 +68,8 @@ inductive Ev where
   | submit                 -- a caller enters `send_request` (fresh request id) and enqueues its task
   | submitFull             -- a caller enters `send_request`, the submit channel is full
   | enqueue (req : Nat)    -- a parked caller's task enters the channel
+  | submitRace             -- a caller enters `send_request` and obtains channel capacity; the push comes later
+  | push (req : Nat)       -- … the push
   | writerTake             -- writer: pop a task, allocate a stream id, write the frame
   | cancel (req : Nat)     -- the caller's future is dropped
   | orphanerStep           -- orphaner: process one orphan notice
@@ -71,6 +82,7 @@ inductive Ev where
 structure Conn where
   map : HMap
   sending : List Nat            -- request ids of callers parked in `submit_channel.send().await`
+  permits : List Nat            -- request ids of callers that hold channel capacity and have not pushed yet
   queue : List Nat              -- request ids of tasks in the submit channel (FIFO)
   server : List (Nat × Nat)     -- (stream, request) written and not yet answered
   notices : List Nat            -- pending orphan notices (FIFO)
@@ -79,7 +91,7 @@ structure Conn where
   broken : Bool
   cause : Option BreakKind      -- what `error_sender` reports
 
-def Conn.init : Conn := ⟨HMap.new, [], [], [], [], [], 0, false, none⟩
+def Conn.init : Conn := ⟨HMap.new, [], [], [], [], [], [], 0, false, none⟩
 
 def getCaller (cs : List (Nat × CallerSt)) (r : Nat) : Option CallerSt :=
   match cs with
@@ -102,15 +114,22 @@ def deliver (cs : List (Nat × CallerSt)) (r : Nat) (o : Outcome) : List (Nat ×
 def failAll (cs : List (Nat × CallerSt)) (rs : List Nat) (e : ErrKind) : List (Nat × CallerSt) :=
   rs.foldl (fun acc r => deliver acc r (.err e)) cs
 
-/-- The router ends with error `k` (`router` 1588-1605): every handler still in the map receives the error,
-the submit channel's receiver is dropped (queued tasks lose their oneshot sender, parked and later
-`send`s fail: `ChannelError`), the orphan-notice receiver is dropped, the map is consumed. -/
+/-- The router ends with error `k` (`router` 1588-1618): every handler still in the map receives the error; the
+submit channel is closed and drained — every task in it receives the error too; callers parked for capacity see
+the closed channel (`ChannelError`), as do later `send`s; callers that already hold capacity push later and are
+failed by the drain loop (`push`); the orphan-notice receiver is dropped, the map is consumed. -/
 def doBreak (c : Conn) (k : BreakKind) : Conn :=
   { c with
     map := { c.map with handlers := [], req2stream := [], orphans := [] },
     broken := true, cause := some k, queue := [], sending := [], notices := [],
     callers := failAll (failAll (failAll c.callers (c.map.handlers.map (·.2)) (.broken k))
-                 c.queue .channelError) c.sending .channelError }
+                 c.queue (.broken k)) c.sending .channelError }
+
+/-- The error the drain loop hands out. -/
+def drainErr (c : Conn) : ErrKind :=
+  match c.cause with
+  | some k => .broken k
+  | none => .channelError     -- unreachable: `broken` implies a cause (`Proofs.Conn.MapInv.brk`)
 
 def step (c : Conn) : Ev → Conn
   | .submit =>
@@ -131,6 +150,20 @@ def step (c : Conn) : Ev → Conn
     if c.sending.contains r then
       { c with sending := c.sending.filter (· != r), queue := c.queue ++ [r] }
     else c
+  | .submitRace =>
+    let r := c.nextReq
+    if c.broken then
+      { c with nextReq := r + 1, callers := setCaller c.callers r (.done (.err .channelError)) }
+    else
+      { c with nextReq := r + 1, permits := c.permits ++ [r], callers := setCaller c.callers r .waiting }
+  | .push r =>
+    if c.permits.contains r then
+      if c.broken then
+        -- the channel is closed but the permit is still good: the drain loop receives the task
+        { c with permits := c.permits.filter (· != r), callers := deliver c.callers r (.err (drainErr c)) }
+      else
+        { c with permits := c.permits.filter (· != r), queue := c.queue ++ [r] }
+    else c
   | .writerTake =>
     if c.broken then c else
     match c.queue with
@@ -144,6 +177,7 @@ def step (c : Conn) : Ev → Conn
     | some .waiting | some (.delivered _) =>
       { c with callers := setCaller c.callers r .abandoned,
                sending := c.sending.filter (· != r),
+               permits := c.permits.filter (· != r),
                notices := if c.broken then c.notices else c.notices ++ [r] }
     | _ => c
   | .orphanerStep =>
